@@ -2,8 +2,8 @@ SPEC = dict(
     id="C07",
     bin="c07",
     coq_dir="C07",
-    coq_pre_cmd="python3 translators/c07_idcounter.py",
-    coq_targets=["C05/Proofs.vo", "C05/Sort.vo", "C05/Examples.vo", "C07/Proofs.vo", "C07/Equiv.vo", "C07/SharedPtsModel.vo", "C07/SharedPts.vo", "C07/PromoteModel.vo", "C07/Promote.vo", "C07/IdGen.vo", "C07/IdCounter.vo", "C07/Examples.vo"],
+    coq_pre_cmd="python3 translators/c07_idcounter.py && python3 translators/c07_state_audit.py",
+    coq_targets=["C05/Proofs.vo", "C05/Sort.vo", "C05/Examples.vo", "C07/Proofs.vo", "C07/Equiv.vo", "C07/SharedPtsModel.vo", "C07/SharedPts.vo", "C07/PromoteModel.vo", "C07/Promote.vo", "C07/IdGen.vo", "C07/IdCounter.vo", "C07/StateGen.vo", "C07/StateAudit.vo", "C07/Examples.vo"],
     allowed_axioms=[],
     level_text=("Unbounded Coq theorems about the C05 model of write-fonts' object store and packer. Hash iteration: the ordered object map built by "
                 "Graph::from_obj_store and the removed_edges check of both sorts are independent of HashMap iteration order (any permutation). "
@@ -36,6 +36,7 @@ SPEC = dict(
     modelled=["write-fonts/src/graph.rs: ObjectStore::add (id draw), Graph::from_obj_store (HashMap -> BTreeMap), removed_edges checks of sort_kahn / sort_shortest_distance, Graph::serialize",
               "write-fonts/src/write.rs: TableWriter::add_table / write_offset (post-order id assignment, content dedup)",
               "write-fonts/src/tables/gvar.rs: GlyphVariations::compute_shared_points, max_by_first_key — coq/C07/SharedPtsModel.v; each tuple's best_point_packing and its size are case data (read back from the compiled bytes)",
+              "process-/thread-wide state of write-fonts, klippa, incremental-font-transfer, shared-brotli-patch-decoder: item list extracted into coq/C07/StateGen.v by translators/c07_state_audit.py (pinned)",
               "write-fonts/src/graph.rs: OBJECT_COUNTER / ObjectId / ObjectId::next — widths, start, step extracted into coq/C07/IdGen.v by translators/c07_idcounter.py",
               "write-fonts/src/graph.rs: get_promotable_subtables (candidate enumeration), select_promotions_hb (stable ranking + layer cut-off) — coq/C07/PromoteModel.v; sizes and the f64 sort key are case data"],
     not_covered=["equivariance / hash-order independence of the space-assignment path (id_map HashMap iteration in isolate_subgraph_hb, fresh ids of duplicate_subgraph): modelled, evaluated under three id streams per case, not proved",
@@ -44,5 +45,6 @@ SPEC = dict(
                  "gpos builders' visiting order of values vs. the first-seen region numbering of VariationStoreBuilder: schedule experiment only (varbuilder jobs)",
                  "gvar shared peak tuples, pick_best_point_number_repr (dense vs sparse), VariationStoreBuilder region ordering, klippa FnvHashMaps: schedule experiment only",
                  "a wrapped id counter cannot be exhibited on the implementation (2^32+ objects cannot be named from outside, no /repo hook): covered by the generated-width theorem only"],
-    assumptions=["an atomic fetch_add returns the previous counter value (so the n-th draw of the process returns start + n modulo 2^width); that it does not wrap within 2^62 draws is proved from the widths extracted from graph.rs on every run"],
+    assumptions=["state hidden from a source scan (state kept by dependencies outside the four audited crates, e.g. read-fonts / skrifa / std, or reached through FFI) does not exist; read-fonts and skrifa are exercised by the schedule experiment only",
+                 "an atomic fetch_add returns the previous counter value (so the n-th draw of the process returns start + n modulo 2^width); that it does not wrap within 2^62 draws is proved from the widths extracted from graph.rs on every run"],
 )
